@@ -843,3 +843,164 @@ func E2EResume(args []string) {
 		os.Exit(3)
 	}
 }
+
+// ---- several receivers on one host (C12 at the application level) ---------------------------------
+
+// E2EQueue: a real host with --max-receivers M and R > M real joins started together; every join must
+// end with the identical tree, the host's hook trace must never show more than M transfers between
+// host.emit.start and host.transfer.end, and transfers start in the order in which the receivers were queued.
+func E2EQueue(args []string) {
+	fs := flag.NewFlagSet("e2e-queue", flag.ExitOnError)
+	n := fs.Int("n", 3, "scenarios (over all shards)")
+	shard := fs.Int("shard", 0, "shard")
+	shards := fs.Int("shards", 1, "shards")
+	thruserv := fs.String("thruserv", "", "thruserv binary")
+	thru := fs.String("thru", "", "thru binary (built with -tags verif)")
+	seed := fs.Int64("seed", 1, "seed")
+	fs.Parse(args)
+	srv, err := startServer(*thruserv, nil, unlimited...)
+	if err != nil {
+		fmt.Fprintln(os.Stderr, err)
+		os.Exit(3)
+	}
+	defer srv.stop()
+	res := &Result{Extra: map[string]any{}}
+	outcomes := map[string]int{}
+	trouble := 0
+	for i := 0; i < *n; i++ {
+		if i%*shards != *shard {
+			continue
+		}
+		maxRecv := 1 + (int(*seed)+i)%2
+		joins := maxRecv + 2
+		work, err := os.MkdirTemp("", "vh-e2eq-")
+		if err != nil {
+			trouble++
+			continue
+		}
+		func() {
+			defer os.RemoveAll(work)
+			src := filepath.Join(work, "src", "share")
+			if err := makeLiteTree(src, []fileSpecLite{{"a.bin", 400000}, {"b/c.bin", 70000}, {"e.txt", 9}}, *seed+int64(i)); err != nil {
+				trouble++
+				return
+			}
+			host, err := startChild(*thru, []string{"host", src, "--server-url", srv.url, "--stun-server", "stun:127.0.0.1:9", "--max-receivers", fmt.Sprint(maxRecv), "--total-connections", "1"},
+				filepath.Join(work, "host.trace"), nil, "")
+			if err != nil {
+				trouble++
+				return
+			}
+			defer host.kill()
+			code := ""
+			for k := 0; k < 400 && code == ""; k++ {
+				txt := host.out.String()
+				if j := strings.Index(txt, "Join Code: "); j >= 0 {
+					rest := txt[j+len("Join Code: "):]
+					if e := strings.IndexAny(rest, " \n"); e > 0 {
+						code = rest[:e]
+					}
+				}
+				if code == "" {
+					time.Sleep(20 * time.Millisecond)
+				}
+			}
+			if code == "" {
+				trouble++
+				return
+			}
+			var js []*childProc
+			for r := 0; r < joins; r++ {
+				out := filepath.Join(work, fmt.Sprintf("out%d", r))
+				_ = os.MkdirAll(out, 0o755)
+				j, err := startChild(*thru, []string{"join", code, "--out", out, "--server-url", srv.url, "--stun-server", "stun:127.0.0.1:9"},
+					filepath.Join(work, fmt.Sprintf("join%d.trace", r)), nil, "y\n")
+				if err != nil {
+					trouble++
+					return
+				}
+				defer j.kill()
+				js = append(js, j)
+			}
+			okAll, equalAll := true, true
+			want, _ := treeDigest(filepath.Join(work, "src"))
+			var exits []int
+			for r, j := range js {
+				c, done := j.wait(90 * time.Second)
+				exits = append(exits, c)
+				if !done || c != 0 {
+					okAll = false
+				}
+				got, _ := treeDigest(filepath.Join(work, fmt.Sprintf("out%d", r)))
+				for k, v := range want {
+					if got[k] != v {
+						equalAll = false
+					}
+				}
+			}
+			host.waitEvent(2*time.Second, func(e hookEv) bool { return false })
+			// census on the host's trace
+			active, maxActive := map[string]bool{}, 0
+			var queuedOrder, startOrder []string
+			for _, e := range host.events() {
+				switch e.Pt {
+				case "host.emit.queued":
+					queuedOrder = append(queuedOrder, e.S)
+				case "host.emit.start":
+					active[e.S] = true
+					startOrder = append(startOrder, e.S)
+					if len(active) > maxActive {
+						maxActive = len(active)
+					}
+				case "host.transfer.end", "host.peer.left.released":
+					// the transfer function returned, or the receiver left and its slot was released (its transfer is cancelled)
+					delete(active, e.S)
+				}
+			}
+			res.Behaviours++
+			res.Distinct++
+			replay := map[string]any{"max_receivers": maxRecv, "joins": joins, "join_exits": exits, "max_active_seen": maxActive,
+				"queued_order": queuedOrder, "start_order": startOrder, "host_tail": tailText(host.out.String(), 300)}
+			if maxActive > maxRecv {
+				res.AddViolation(map[string]any{"prop": "C12", "kind": "more_simultaneous_transfers_than_max_receivers", "level": "binaries"}, replay)
+			}
+			if !okAll {
+				res.AddViolation(map[string]any{"prop": "C12", "kind": "queued_receiver_not_served", "level": "binaries"}, replay)
+			} else if !equalAll {
+				res.AddViolation(map[string]any{"prop": "C01", "kind": "bytes_differ_after_successful_session", "level": "binaries"}, replay)
+			}
+			// receivers that had to queue start in the order they were queued
+			pos := map[string]int{}
+			for k, p := range startOrder {
+				if _, ok := pos[p]; !ok {
+					pos[p] = k
+				}
+			}
+			var firstQueued []string // order in which the receivers were queued (position updates repeat the message)
+			seenQ := map[string]bool{}
+			for _, p := range queuedOrder {
+				if !seenQ[p] {
+					seenQ[p] = true
+					firstQueued = append(firstQueued, p)
+				}
+			}
+			for a := 0; a < len(firstQueued); a++ {
+				for b := a + 1; b < len(firstQueued); b++ {
+					pa, oka := pos[firstQueued[a]]
+					pb, okb := pos[firstQueued[b]]
+					if oka && okb && pa > pb {
+						res.AddViolation(map[string]any{"prop": "C12", "kind": "queued_receivers_started_out_of_order", "level": "binaries"}, replay)
+					}
+				}
+			}
+			outcomes[fmt.Sprintf("max=%d joins=%d ok=%v equal=%v max_active=%d", maxRecv, joins, okAll, equalAll, maxActive)]++
+			res.AddSample(replay, 3)
+		}()
+	}
+	res.Extra["outcomes"] = outcomes
+	res.Extra["trouble"] = trouble
+	res.Print()
+	if trouble > res.Behaviours/2+1 {
+		os.Exit(3)
+	}
+}
